@@ -17,7 +17,7 @@ def analyse_case(args) -> Dict:
     from . import frontend, program, scenarios, explore
     from .program import Unsupported
     from . import machine as M
-    case, pc = fam.VALID[idx]
+    case, pc = fam.ALL_CASES[idx]
     out = {'idx': idx, 'label': case.label, 'status': 'ok', 'findings': [], 'detail': '',
            'stats': {'queries': 0, 'solver_s': 0.0, 'paths': 0}, 'wall_s': 0.0, 'clang_s': 0.0}
     t0 = time.time()
@@ -70,7 +70,7 @@ def run_family(what: str, indices: List[int], opts=None) -> List[Dict]:
 def validate_case(idx: int) -> Dict:
     """Machine vs compiled program on the routing scenario of one case (trusted-base validation)."""
     from . import frontend, program, scenarios, concrete, explore
-    case, pc = fam.VALID[idx]
+    case, pc = fam.ALL_CASES[idx]
     out = {'idx': idx, 'label': case.label, 'agree': None, 'detail': ''}
     d = tempfile.mkdtemp(prefix='vfsv_')
     try:
@@ -101,7 +101,7 @@ def replay_finding(args) -> Dict:
     """Re-run the scenario of a finding on the g++-compiled program; does the property fail there too?"""
     idx, what, finding = args
     from . import frontend, concrete
-    case, pc = fam.VALID[idx]
+    case, pc = fam.ALL_CASES[idx]
     out = {'idx': idx, 'reproduced': None, 'detail': ''}
     d = tempfile.mkdtemp(prefix='vfsr_')
     try:
